@@ -102,7 +102,10 @@ class EditMachine(ohist.Machine):
 
         def decoded():
             sp = start_spec(t)
-            b = specs.lib_decode(t, sp["format"], R.encode_block(sp))[0]
+            try:
+                b = specs.lib_decode(t, sp["format"], R.encode_block(sp))[0]
+            except Exception as e:  # noqa: BLE001
+                raise self.V(self.clauses[0], "conformant-bytes-refused", f"{gen.spec_label(sp)}: {type(e).__name__}: {e}")
             return self._observed(b), {"spec": sp, "prev": None}
 
         return [("built", built), ("decoded", decoded)]
@@ -126,7 +129,7 @@ class EditMachine(ohist.Machine):
         if t in gen.RLE_TYPES:
             for i in range(len(items)):
                 present = self._present(sp, i)
-                for f in range(NF):
+                for f in range(len(present)):
                     out.append(("gap" if present[f] else "fill", i, f))
                 if present.any():
                     out.append(("value", i))
@@ -141,6 +144,9 @@ class EditMachine(ohist.Machine):
             out.append(("cell_grow", 0, 0))
         elif t == R.T_EVENTS:
             out += [("label", 0), ("value", 0), ("ev_append",)]
+            seq = next((i for i, e in enumerate(items) if e["etype"] == 1), None)
+            if seq is not None:
+                out += [("values_list", seq), ("values_f8", seq)]
             if len(items) > 1:
                 out.append(("ev_pop",))
         elif t == R.T_PLATCAL:
@@ -230,6 +236,11 @@ class EditMachine(ohist.Machine):
                     pts = gen.filler((k, 2), 60 + fr + 3 * c + k)
                     sp["cells"][fr][c] = pts
                     b.data[fr, c] = pts.copy()
+            elif kind in ("values_list", "values_f8"):
+                i = op[1]
+                vals = [4.0, 5.0, 6.0] if kind == "values_list" else [7.5, 8.5]
+                items_s[i]["values"] = np.array(vals, "<f4")
+                items_l[i].values = list(vals) if kind == "values_list" else np.array(vals, "<f8")
             elif kind == "ev_append":
                 e = gen.mk_event(f"n{len(items_s)}", 1, 1, 20 + len(items_s))
                 sp["events"].append(e)
@@ -275,7 +286,8 @@ class EditMachine(ohist.Machine):
                 raise self.V("gaps", "run-table-unparsable", f"{lab}: {e}")
             for i, rit in enumerate(spec_items(ref)):
                 present = self._present(sp, i)
-                cov = np.zeros(NF, bool)
+                nfr = len(present)
+                cov = np.zeros(nfr, bool)
                 last = None
                 for s, m in rit["segs"]:
                     if m <= 0 or (last is not None and s <= last):
@@ -286,7 +298,7 @@ class EditMachine(ohist.Machine):
                     raise self.V("gaps", "runs!=present-frames", f"{lab}: item {i} runs {rit['segs']} but present frames are "
                                  f"{present.astype(int)} after the edit")
                 f0 = RLE_FIELDS[t][0]
-                if np.isnan(np.asarray(rit[f0]).reshape(NF, -1)[present]).any():
+                if np.isnan(np.asarray(rit[f0]).reshape(nfr, -1)[present]).any():
                     raise self.V("gaps", "NaN-inside-run", f"{lab}: item {i}")
         if "roundtrip" in self.clauses:
             try:
@@ -352,3 +364,43 @@ def replay(w):
 RULE_SUFFIX = ("; plus edit-after-observe histories (depth 2 quick / 3 thorough) on one live block per kind, built and decoded: "
                "in-place edits through public attributes interleaved with size / encode / == observations, compared with a "
                "block built fresh from the edited content")
+
+
+def edited_variant(t, base_spec):
+    """A block that was built, observed (sized / written / compared) and then edited in place, with
+    the spec of its final content.  Used as a payload variant by the container driver."""
+    m = EditMachine(t, ("size",))
+    b = m._observed(specs.build(base_spec))
+    model = {"spec": copy.deepcopy(base_spec), "prev": None}
+    prefer = {R.T_EVENTS: "values_list", R.T_DATA2D: "cell_grow", R.T_PLATCAL: "label", R.T_OPT: "ch_append", R.T_CALIB: "value"}
+    ops = m.ops(model)
+    want = prefer.get(t, "gap")
+    op = next((o for o in ops if o[0] == want), ops[0])
+    b, model = m.step(b, model, op)
+    return b, model["spec"]
+
+
+def scribble(b):
+    """Some in-place edit of a library block through public attributes (used to find out whether two
+    reads handed out the same object).  Returns True if something was changed."""
+    t = b.type.value
+    try:
+        items = lib_items(b, t)
+    except Exception:  # noqa: BLE001
+        items = []
+    for it in items:
+        for attr in ("label", "camera_name"):
+            if isinstance(getattr(it, attr, None), str):
+                setattr(it, attr, getattr(it, attr) + "~")
+                return True
+        for attr in ("torque", "values", "focus"):
+            a = getattr(it, attr, None)
+            if isinstance(a, np.ndarray) and a.size:
+                poke(it, attr, 0, np.asarray(a).reshape(-1)[0] * 0 + 123.0)
+                return True
+    for attr in ("frequency", "start_time", "startTime"):
+        v = getattr(b, attr, None)
+        if isinstance(v, (int, float, np.integer, np.floating)):
+            setattr(b, attr, v + 1)
+            return True
+    return False
